@@ -1735,9 +1735,11 @@ def c09_diskstats_search(meta, seed, budget):
     rng = random.Random(seed)
     names = ["sda", "sda1", "sda2", "nvme0n1", "nvme0n1p1", "md1", "md10", "dm-1", "dm-10", "loop0", "cciss/c0d0", "sr0"]
     c = lambda: rng.choice([0, 1, rng.randrange(2 ** 32), rng.randrange(2 ** 64)])  # noqa: E731
+    corpus = [["sda", "sda1", "sda2", "md1", "md10"], ["dm-1", "dm-10", "dm-1"][:2], ["nvme0n1", "nvme0n1p1", "nvme0n10"],
+              ["md10", "md1"], ["sda", "sdaa"], ["loop0", "loop0"][:1], ["sr0", "sda", "sda1"]]
     for n in range(budget):
         k = rng.randrange(0, 6)
-        chosen = rng.sample(names, k)
+        chosen = corpus[n] if n < len(corpus) else rng.sample(names, k)
         lines = []
         use24 = n % 9 == 4
         for nm in chosen:
@@ -1748,4 +1750,5 @@ def c09_diskstats_search(meta, seed, budget):
                 lines.append([8, 1, nm] + [c() for _ in range(4)])
             else:
                 lines.append([8, 0, nm] + [c() for _ in range(layout - 3)])
-        yield {"lines": lines, "whole_disks": [nm for nm in chosen if not nm[-1].isdigit() or nm in ("nvme0n1", "md1", "md10", "dm-1", "dm-10", "loop0", "sr0", "cciss/c0d0")]}
+        yield {"lines": lines, "whole_disks": [nm for nm in chosen if not nm[-1].isdigit() or nm in (
+            "nvme0n1", "nvme0n10", "md1", "md10", "dm-1", "dm-10", "loop0", "sr0", "cciss/c0d0")]}
